@@ -435,9 +435,9 @@ func solveWhole(outDir, bg string, o *Obligation, tier string, budget, seed int)
 		// the solver that decided this obligation when the baseline was taken goes first, with a longer first attempt
 		for _, sp := range solvers {
 			if sp.name == strings.TrimSuffix(h, "+sk") {
-				first := 3 * short
-				if first > budget {
-					first = budget
+				first := budget * 3 / 4 // most of the budget goes to the solver and form that decided it before
+				if first < short {
+					first = short
 				}
 				plan = append([]attempt{{sp, first, strings.HasSuffix(h, "+sk")}}, plan...)
 			}
